@@ -240,7 +240,7 @@ def bounded(run):
                'kekule(); thiele() is the aromaticity normal form of the statement ("once aromaticity is normalised")',
                'hash agreement is checked inside one process (PYTHONHASHSEED fixed per process; cross-process stability is C19)')
 
-    recs = G.atlas_records(max_nodes, trials, tag='b01')
+    recs = G.atlas_records(max_nodes, trials)
     recs += G.ion_records()
     for i, s in enumerate(G.SPECIAL_SMILES):
         m = D.parse(s)
@@ -291,15 +291,19 @@ def bounded(run):
                 run.case(0, sample={'domain': domain, 'input': ident, 'canonical': s0, 'evaluations': ncases,
                                     'relations': sorted({k[1] for k in keys}), 'gap': list(gap)})
             by_string.setdefault(s0, []).append((domain, ident))
-            for rel, what, witness in bad:
-                if gap[0] or gap[1]:
-                    notes['gap_hits'] += 1
+            if not bad:
+                continue
+            if gap[0] or gap[1]:
+                notes['gap_hits'] += len(bad)
+                for rel, what, witness in bad:
                     if len(notes['gap_hit_samples']) < 12:
                         notes['gap_hit_samples'].append({'input': ident, 'gap': 1 if gap[0] else 2, 'relation': rel, 'what': what})
-                    continue
-                run.violation(f'{rel}:{ident}', f'C01 {rel}: {what} [{domain} input {ident}]',
-                              witness={'domain': domain, 'input': ident, 'record': by_id.get(ident), 'relation': rel, **witness},
-                              native={'reference': s0, 'difference': what})
+                continue
+            rel, what, witness = bad[0]
+            run.violation(f'c01:{ident}', f'C01 {rel}: {what} [{domain} input {ident}]' +
+                          (f' (also: {", ".join(b[0] for b in bad[1:])})' if len(bad) > 1 else ''),
+                          witness={'domain': domain, 'input': ident, 'record': by_id.get(ident), 'relation': rel, **witness},
+                          native={'reference': s0, 'differences': {b[0]: b[1] for b in bad}})
 
     # no over-merging: molecules sharing a canonical string are isomorphic for the reference enumerator
     def mol_of(domain, ident):
